@@ -59,9 +59,9 @@ def kinds_of(spec):
         kind = n["kind"]
         if kind == "source":
             k[n["name"]] = "k_" + n["name"]
-        elif kind in ("rowmap", "downchunk", "exhaust"):
+        elif kind in ("rowmap", "downchunk", "exhaust", "cut"):
             k[n["name"]] = k[n["dep"]]
-        elif kind == "merge2":
+        elif kind in ("merge2", "mergeonly"):
             k[n["name"]] = k[n["deps"][0]]
         elif kind == "filter":
             k[n["name"]] = "k_" + n["name"]
@@ -99,8 +99,42 @@ def _groups(t, e, v, g):
     return (np.array(gt, dtype=np.int64), np.array(ge, dtype=np.int64), np.array(gv, dtype=np.int64))
 
 
+TIME_FIELDS_TITLED = [(("Start time since unix epoch [ns]", "time"), np.int64),
+                      (("Exclusive end time since unix epoch [ns]", "endtime"), np.int64)]
+
+
+def is_cut_name(name):
+    """Cut plugins (strax.CutPlugin) are named c<digits>: their dtype is inferred by strax (titled time fields +
+    one boolean column); spelled out here independently."""
+    return len(name) > 1 and name[0] == "c" and name[1:].isdigit()
+
+
 def dtype_for(name):
+    if is_cut_name(name):
+        return np.dtype(TIME_FIELDS_TITLED + [((f"cut {name}", f"v_{name}"), np.bool_)])
     return np.dtype([("time", np.int64), ("endtime", np.int64), (f"v_{name}", np.int64)])
+
+
+def merged_dtype_for(deps):
+    """dtype of a strax.MergeOnlyPlugin over `deps`: fields of the dependencies in sorted order of their names,
+    first occurrence of a field name wins."""
+    out, seen = [], set()
+    for d in sorted(deps):
+        dt = dtype_for(d)
+        for descr in dt.descr:
+            nm = descr[0][1] if isinstance(descr[0], tuple) else descr[0]
+            if nm not in seen:
+                seen.add(nm)
+                out.append(descr)
+    return np.dtype(out)
+
+
+def merge_rows(deps, arrays):
+    res = np.zeros(len(arrays[deps[0]]), dtype=merged_dtype_for(deps))
+    for d in deps:
+        for nm in arrays[d].dtype.names:
+            res[nm] = arrays[d][nm]
+    return res
 
 
 def make_rows(name, t, e, v):
@@ -136,6 +170,11 @@ def oracle(spec, config=None):
             t, e, v = _tev(out[n["dep"]], n["dep"])
             m = (v % n["m"]) == n["r"]
             out[n["name"]] = make_rows(n["name"], t[m], e[m], v[m])
+        elif kind == "cut":
+            t, e, v = _tev(out[n["dep"]], n["dep"])
+            out[n["name"]] = make_rows(n["name"], t, e, (v % n["m"]) == n["r"])
+        elif kind == "mergeonly":
+            out[n["name"]] = merge_rows(n["deps"], out)
         elif kind == "merge2":
             d1, d2 = n["deps"]
             t, e, v1 = _tev(out[d1], d1)
@@ -348,6 +387,32 @@ class _Merge2(_HarnessMixin, strax.Plugin):
         return res
 
 
+class _Cut(_HarnessMixin, strax.CutPlugin):
+    """strax.CutPlugin: dtype inferred by strax, compute() is strax's, only cut_by is ours."""
+    cut_description = "cut"
+
+    def cut_by(self, start, end, **kw):
+        n = self.H_NODE
+        self._h_log(start, end, kw)
+        (arr,) = kw.values()
+        f = self._h_fault_hit(kw)
+        if f is not None and f["kind"] == "raise":
+            raise InjectedFault(f"injected in {n['name']}")
+        return (arr[f"v_{n['dep']}"] % n["m"]) == n["r"]
+
+
+class _MergeOnly(_HarnessMixin, strax.MergeOnlyPlugin):
+    """strax.MergeOnlyPlugin: dtype inferred from the dependencies, the merged chunk is passed through."""
+
+    def compute(self, start, end, **kw):
+        n = self.H_NODE
+        self._h_log(start, end, kw)
+        f = self._h_fault_hit(kw)
+        if f is not None and f["kind"] == "raise":
+            raise InjectedFault(f"injected in {n['name']}")
+        return strax.MergeOnlyPlugin.compute(self, **kw)
+
+
 class _Multi(_HarnessMixin, strax.Plugin):
     def compute(self, start, end, **kw):
         n = self.H_NODE
@@ -496,7 +561,7 @@ class _Recorder(_HarnessMixin, strax.Plugin):
 
 BASES = {"source": _Source, "rowmap": _RowMap, "filter": _Filter, "merge2": _Merge2, "multi": _Multi,
          "loop": _Loop, "overlap": _Overlap, "overlapm": _OverlapM, "downchunk": _DownChunk,
-         "exhaust": _Exhaust,
+         "exhaust": _Exhaust, "cut": _Cut, "mergeonly": _MergeOnly,
          "recorder": _Recorder}
 
 BYZANTINE_KINDS = ("wrong_dtype_bare", "wrong_dtype_chunk", "rows_outside", "wrong_data_type",
@@ -618,7 +683,13 @@ def build_classes(spec, log=None, fault=None, prefix="H"):
         else:
             attrs["data_kind"] = kinds[nm[0]]
             attrs["dtype"] = dtype_for(nm[0])
-            if opts.get("infer") and deps_of(n):
+            if n["kind"] == "cut":
+                del attrs["dtype"]              # CutPlugin.infer_dtype builds it from cut_name / cut_description
+                attrs["cut_name"] = f"v_{nm[0]}"
+                attrs["cut_description"] = f"cut {nm[0]}"     # numpy field titles must be unique when merged
+            elif n["kind"] == "mergeonly":
+                del attrs["dtype"]              # MergeOnlyPlugin.infer_dtype merges the dependencies' dtypes
+            elif opts.get("infer") and deps_of(n):
                 # dtype through infer_dtype(); data kind inferred from the first dependency where that is right
                 del attrs["dtype"]
                 attrs["infer_dtype"] = (lambda _d: (lambda self: _d))(dtype_for(nm[0]))
